@@ -39,14 +39,16 @@ META_FIELDS = {
 }
 
 _PROP_ALPHABET = st.sampled_from(list("abcXYZ 019-_.,;:!?()[]'\"<>&%#@/\\+=*") + ["é", "ü", "ß", "Ω", "ж", "中", "日", "€", "™", "—", "😀", "𝔘", " "[0:0] or "ñ"])
-PROP_TEXT = st.text(alphabet=_PROP_ALPHABET, min_size=1, max_size=24).map(lambda s: s.strip()).filter(lambda s: len(s) > 0)
+_PROP_BODY = st.text(alphabet=_PROP_ALPHABET, min_size=1, max_size=24).map(lambda s: s.strip()).filter(lambda s: len(s) > 0)
+# values that begin or end with characters a tidy-up step might strip (timestamp 'Z', digits, dots, quotes, brackets)
+PROP_TEXT = st.one_of(_PROP_BODY, _PROP_BODY, st.tuples(st.sampled_from(["", "Z", "T", "0", "(", "'", ".", "-"]), _PROP_BODY, st.sampled_from(["Z", "z", "0", ".", ")", "'", ":", "T00:00:00Z", "-"])).map(lambda t: "".join(t)))
 
 
 def props_strategy():
     return st.fixed_dictionaries({}, optional={k: PROP_TEXT for k in ("title", "author", "subject", "keywords", "description")})
 
 
-PATH_FORMS = ["none", "relative", "abs-missing", "existing", "unicode", "multi-dot", "hidden", "archive-member", "spaces"]
+PATH_FORMS = ["none", "relative", "abs-missing", "existing", "unicode", "multi-dot", "hidden", "archive-member", "spaces", "missing-in-existing-dir", "relative-existing-dir", "symlink"]
 
 
 def make_path(form: str, ext: str, tmpdir: str, data: bytes):
@@ -61,6 +63,20 @@ def make_path(form: str, ext: str, tmpdir: str, data: bytes):
         with open(p, "wb") as fh:
             fh.write(data[:64])
         return p
+    if form == "missing-in-existing-dir":       # the folder exists (and is resolved), the file does not
+        return os.path.join(tmpdir, f"no such file.{ext}")
+    if form == "relative-existing-dir":         # relative to the working directory of the check (the harness directory)
+        return f"vf/gen/no_such_file.{ext}"
+    if form == "symlink":                       # the path names a link in one folder to a file in another
+        os.makedirs(os.path.join(tmpdir, "store"), exist_ok=True)
+        os.makedirs(os.path.join(tmpdir, "inbox"), exist_ok=True)
+        target = os.path.join(tmpdir, "store", f"stored.{ext}")
+        with open(target, "wb") as fh:
+            fh.write(data[:64])
+        link = os.path.join(tmpdir, "inbox", f"link.{ext}")
+        if not os.path.lexists(link):
+            os.symlink(target, link)
+        return link
     if form == "unicode":
         return f"Ünï/文書/résumé ≈.{ext}"
     if form == "multi-dot":
